@@ -23,11 +23,13 @@ def run(ctx):
     ctx.rule("no-write-on-error", "set_psk and stateful transport entry points write nothing rooted at self on error exits")
     ctx.trust("rustc MIR; snowfacts; effect analysis over-approximates writes (sound for 'nothing else is written')")
     ctx.assume("a cipher object's observable state is its last set() key; Dh/Hash/Cipher &self methods do not mutate (Freeze, C16)")
+    ctx.rule("toggle-disable", "a key toggle is switched off only where that same toggle was observed off (roll-back of an enable, never loss of a known key)")
     for cfg in ctx.cfgs:
         F = ctx.facts[cfg]
         E = ctx.eff(cfg)
         n = errpath.check_errpath(ctx, cfg)
         ctx.floor("errpath-write", n, 6, cfg)
+        errpath.check_toggle_disable(ctx, cfg)
         p = errpath.check_progress_writes(ctx, cfg)
         ctx.floor("progress-on-ok", p, 6, cfg)
         h = errpath.check_hasher_reset(ctx, cfg)
